@@ -88,10 +88,27 @@ def probe_c01(oblig, tier, seed):
             cases.append([(q, a)])
             cases.append([("'", 'x'), (q, a)])
             cases.append([(q, a), ("'", 'y')])
+    # unquoted words whose special characters are each backslash-escaped
+    for a in alpha + ['a>', '>a', 'a<b', 'a|', '&a', 'a&', 'a$HOME', '~/x', 'a*', '`echo`', '{1..3}', '$$', '$(echo)', '||', '&&', 'a;b', '#a']:
+        if a == '':
+            continue
+        cases.append([('\\', a)])
+        cases.append([('', 'x'), ('\\', a)])
+        cases.append([('\\', a), ('', 'y')])
+        cases.append([('\\', a), ('\\', a)])
+        cases.append([('\\', a), ('|', '')])
+
+    def wr(q, a):
+        if q == '\\':
+            return ''.join(ch if ch.isalnum() else '\\' + ch for ch in a)
+        return q + a + q
     tried = 0
     for args in cases:
-        line = './pargs ' + ' '.join(q + a + q for q, a in args)
-        w = {'line': line, 'files': {'pargs': PARGS}, 'expect_stdout': ''.join('[%s]\n' % a for q, a in args), 'timeout': 5}
+        piped = args[-1][0] == '|'
+        if piped:   # the last argument directly followed by a pipe, no space in between
+            args = args[:-1]
+        line = './pargs ' + ' '.join(wr(q, a) for q, a in args) + ('|cat' if piped else '')
+        w = {'line': line, 'files': {'pargs': PARGS, 'afile': '', 'bfile': ''}, 'expect_stdout': ''.join('[%s]\n' % a for q, a in args), 'timeout': 5}
         tried += 1
         bad, detail = W.violates(w, W.observe(w))
         if bad:
